@@ -19,7 +19,20 @@ Calls2 == {P!Call(Funs[f], <<c, Atoms[j]>>) : f \in {1, 2}, c \in {P!Call(Funs[g
 Coll == << P!Q(<<"a", " ", "b">>), P!Q(<<"a", "+", "b">>), P!Q(<<"a", "-", "b">>), P!Q(<<"a", "_", "b">>) >>
 Calls3 == {P!Call(Funs[2], <<Coll[i], Coll[j], Coll[k]>>) : i \in DOMAIN Coll, j \in DOMAIN Coll, k \in DOMAIN Coll}
              \cup {P!Call(Funs[2], <<Coll[p[1]], Coll[p[2]], Coll[p[3]], Coll[p[4]]>>) : p \in {q \in [1..4 -> 1..4] : \A u, v \in 1..4 : u # v => q[u] # q[v]}}
-Exprs == IF Depth = 1 THEN Calls1 \cup Calls3 ELSE Calls1 \cup Calls2 \cup Calls3
+\* keyword operators over atoms: the places where a quoted name stands next to a word (tight spelling: not`a b`, x if`a b`else 'a');
+\* the operands are names that are / are not identifiers, a name that is also an identifier of the expression, a literal
+KwAtoms == << P!Id(<<"x">>), P!Q(<<"x">>), P!Q(<<"a", " ", "b">>), P!Q(<<"1", "a">>), P!Str(<<"a">>) >>
+KwWords == << <<"i", "n">>, <<"a", "n", "d">>, <<"o", "r">> >>
+KwExprs == {P!Kw(<<"n", "o", "t">>, <<KwAtoms[i]>>) : i \in DOMAIN KwAtoms}
+             \cup {P!Kw(KwWords[w], <<KwAtoms[i], KwAtoms[j]>>) : w \in DOMAIN KwWords, i \in DOMAIN KwAtoms, j \in DOMAIN KwAtoms}
+             \cup {P!IfElse(KwAtoms[i], KwAtoms[j], KwAtoms[k]) : i \in DOMAIN KwAtoms, j \in DOMAIN KwAtoms, k \in DOMAIN KwAtoms}
+Calls4 == {P!Call(Funs[2], <<k>>) : k \in KwExprs}
+\* literals (and, for contrast, a name) holding a RUN of blanks: data, whatever the formatter does with blanks between tokens
+Wide == << P!Str(<<"a", " ", " ", "b">>), P!Str(<<" ", " ", " ">>), P!Q(<<"a", " ", " ", "b">>) >>
+Calls5 == {P!Call(Funs[f], <<Wide[s]>>) : f \in DOMAIN Funs, s \in DOMAIN Wide}
+             \cup {P!Call(Funs[2], <<Wide[s], Atoms[i]>>) : s \in DOMAIN Wide, i \in DOMAIN Atoms}
+             \cup {P!Call(Funs[2], <<Atoms[i], Wide[s]>>) : s \in DOMAIN Wide, i \in DOMAIN Atoms}
+Exprs == (IF Depth = 1 THEN Calls1 \cup Calls3 ELSE Calls1 \cup Calls2 \cup Calls3) \cup Calls4 \cup Calls5
 
 VARIABLE e
 Init == e \in Exprs
@@ -30,8 +43,10 @@ Faithful == P!Faithful(e)
 ScanOK == P!ScanOK(e)
 ScanLossless == P!ScanLossless(e)
 TemplateLaw == P!TemplateLaw(e)
+SqueezeLaw == P!SqueezeLaw(e)
+SanitizeLexOK == P!SanitizeLexOK(e)
 RECURSIVE Cat(_)
 Cat(cs) == IF cs = <<>> THEN "" ELSE Head(cs) \o Cat(Tail(cs))
 Out == IOEnv.OUT_FILE
-EmitCase == Emit => CSVWrite("%1$s", <<ToJson([text |-> Cat(P!NormalForm(e)), nq |-> Len(P!QNames(e)), qn |-> [i \in DOMAIN P!QNames(e) |-> Cat(P!QNames(e)[i])]])>>, Out)
+EmitCase == Emit => CSVWrite("%1$s", <<ToJson([text |-> Cat(P!NormalForm(e)), tight |-> Cat(P!Tight(e)), nq |-> Len(P!QNames(e)), qn |-> [i \in DOMAIN P!QNames(e) |-> Cat(P!QNames(e)[i])]])>>, Out)
 =============================================================================
